@@ -31,7 +31,7 @@ def main():
             run_demo = f"WT={wt} bash {os.path.join(ddir, 'demo.sh')}"
             # demo.sh scripts refer to the author's worktree path; point them at ours
             script = open(os.path.join(ddir, "demo.sh")).read()
-            m = re.search(r"/tmp/wt/C\d\d", script)
+            m = re.search(r"/tmp/wt2?/C\d\d", script)
             tmpd = tempfile.mkdtemp(prefix="demo-" + mid + "-", dir="/tmp")
             for f in os.listdir(ddir):
                 if os.path.isfile(os.path.join(ddir, f)):
@@ -59,7 +59,7 @@ def main():
             elif pkg.startswith("importgraph"):
                 sub = "internal/importgraph"
             else:
-                sub = pkg
+                sub = "internal/" + pkg  # demo packages state "place at <worktree>/internal/<pkg>/"
             os.makedirs(os.path.join(wt, sub), exist_ok=True)
             dst = os.path.join(wt, sub, "zz_seeded_demo_test.go")
             shutil.copy(demo, dst)
